@@ -24,7 +24,10 @@ DecodeOK ==
       [] T.proto = "v6" -> Agrees6(Dec6(T["in"]), TRUE, E.val)
       [] T.proto = "label" -> LabelAgrees(T["in"], TRUE, E.val)
       [] OTHER -> TRUE
-SameAsFirst == first.set => (E.enc = first.enc /\ E.str = first.str /\ E.val = first.val)
+\* (value trees are compared through their fingerprints when the record carries one: trees of different shapes - an option
+\* that changed places with one of another type - are not comparable as TLA+ values)
+ValKey(e) == IF "valh" \in DOMAIN e THEN e.valh ELSE e.val
+SameAsFirst == first.set => (E.enc = first.enc /\ E.str = first.str /\ ValKey(E) = first.val)
 PriorResult(m) == IF \E i \in DOMAIN results : results[i].m = m
                   THEN <<results[CHOOSE i \in DOMAIN results : results[i].m = m].r>> ELSE <<>>
 
@@ -32,7 +35,7 @@ Consume ==
     /\ l <= Len(Ev)
     /\ CASE E.a = "Decode" -> DecodeOK /\ UNCHANGED <<first, results>>
          [] E.a = "Obs" -> /\ SameAsFirst
-                           /\ first' = IF first.set THEN first ELSE [set |-> TRUE, enc |-> E.enc, str |-> E.str, val |-> E.val]
+                           /\ first' = IF first.set THEN first ELSE [set |-> TRUE, enc |-> E.enc, str |-> E.str, val |-> ValKey(E)]
                            /\ UNCHANGED results
          [] E.a = "Scribble" -> UNCHANGED <<first, results>>                  \* environment step: nothing may change
          [] E.a = "Encode" -> (first.set => E.enc = first.enc) /\ UNCHANGED <<first, results>>
